@@ -300,6 +300,8 @@ func c04Run(c *Case) (out string, fails []Fail) {
 		return o, f
 	case 1:
 		return c04RunWrite(c, root, addFail, &fails)
+	case 2, 3:
+		return c04ConcRun(c)
 	}
 	return "badcase", nil
 }
@@ -494,6 +496,10 @@ func c04RunWrite(c *Case, root string, addFail func(Fail), fails *[]Fail) (strin
 
 func c04Gen(g *Gen) {
 	r := g.R
+	c04ConcGen(g)
+	if os.Getenv("VERIF_C04_ONLY") == "conc" {
+		return // development aid: only the concurrent-writer families
+	}
 	// ---- kind 1: util.WriteFileAt alone, every fault x boundary sizes x what is there before ----
 	sizes := []int{1, 2, 9, 300}
 	if g.Thorough() {
